@@ -76,6 +76,25 @@ def brute_count(n, pattern):
     return sum(brute_count(n // d, rest) for d in range(1, n + 1) if n % d == 0)
 
 
+def range_split(s, n, N, st, parts=4, timeout_ms=300000):
+    """`unknown` fallback: the domain 1..N of the symbolic argument is cut into `parts` sub-ranges and
+    the same query is decided on each (still the solver's verdict over every n of the sub-range).
+    z3's run time on these mod-heavy queries varies by an order of magnitude with variable naming."""
+    st.extra["range_splits"] = st.extra.get("range_splits", 0) + 1
+    verdict = "unsat"
+    step = -(-N // parts)
+    for lo in range(1, N + 1, step):
+        s.push()
+        s.add(n >= lo, n <= min(N, lo + step - 1))
+        r = z3_check(s, st, timeout_ms)
+        if r == "sat":
+            return "sat"          # the sub-range constraints stay pushed: the caller reads the model
+        s.pop()
+        if r != "unsat":
+            verdict = "unknown"
+    return verdict
+
+
 def shard(payload):
     kind, N, arg = payload
     st = Stats()
@@ -119,7 +138,9 @@ def shard(payload):
         st.mutants_refuted += 1
         s.pop()
         s.add(z3.Or(wrong))
-        r = z3_check(s, st, 900000)
+        r = z3_check(s, st, 400000)
+        if r == "unknown":
+            r = range_split(s, n, N, st)
         count_obligation(st, r, label)
         st.sample({"obligation": label, "guarded_elements": len(res.items), "unwinding_queries": it.n_feas})
         if r == "sat":
@@ -187,7 +208,9 @@ def shard(payload):
         st.mutants_refuted += 1
         s.pop()
         s.add(z3.Or(wrong))
-        r = z3_check(s, st, 900000)
+        r = z3_check(s, st, 400000)
+        if r == "unknown":
+            r = range_split(s, n, N, st)
         count_obligation(st, r, label)
         st.sample({"obligation": label, "guarded_elements": len(res.items), "unwinding_queries": it.n_feas})
         if r == "sat":
